@@ -310,7 +310,7 @@ func (m *Monitor) checkStagnation() {
 			if !allStarted {
 				continue
 			}
-			m.find("C06", "C06 no honest participant changed round or step over thousands of events after stabilisation while a started one is undecided (livelock)",
+			m.find("C06", "C06 no honest participant changed round or step over thousands of events after stabilisation while a started one is undecided (livelock)"+m.roundSplitNote(inst),
 				map[string]any{"participant": h.i, "instance": inst, "progress": fmt.Sprint(h.p.Progress().Instant), "events_without_change": w.Events - m.lastChangeEv, "alarms_without_change": m.alarmsSinceChange})
 			w.stop("c06-stagnant")
 			return
@@ -448,6 +448,65 @@ func (m *Monitor) lotteryNote(inst uint64) string {
 		return ""
 	}
 	return fmt.Sprintf(" [termination lottery by input divergence: the value most honest members propose is not a prefix of the input of honest members the quorum cannot do without; holders of a universally acceptable value have %d%% of the power]", acceptAll*100/max(total, 1))
+}
+
+// roundSplitNote classifies a livelock. A participant leaves round r either with a strong quorum of
+// round-r COMMITs or by skipping to a later round on a weak quorum of that round's PREPAREs. If faulty
+// members helped a minority of the honest power into round r+1 before stabilisation (evidence the other
+// honest members never received) and fall silent afterwards, the honest members still in round r can
+// neither complete it (they lack the COMMITs of those who left, which are never sent) nor skip (the
+// members ahead hold less than a weak quorum), and the members ahead cannot gather a quorum either. The
+// note makes this history recognisable (known finding C06-round-split-deadlock); any other livelock
+// keeps the plain signature.
+func (m *Monitor) roundSplitNote(inst uint64) string {
+	w := m.w
+	T := w.Table(inst)
+	if T == nil {
+		return ""
+	}
+	var total int64
+	for i := range T.Entries {
+		total += scaledIndep(T, i)
+	}
+	minRound, first := uint64(0), true
+	for _, h := range w.Part {
+		if h == nil || h.m.Kind != Honest || !h.started[inst] {
+			continue
+		}
+		if _, done := h.decided[inst]; done {
+			return "" // somebody decided: its DECIDE would carry the others; not this pattern
+		}
+		pr := h.p.Progress()
+		if pr.ID != inst {
+			return ""
+		}
+		if first || pr.Round < minRound {
+			minRound, first = pr.Round, false
+		}
+	}
+	if first {
+		return ""
+	}
+	var behind, ahead int64
+	for i, h := range w.Part {
+		if h == nil || h.m.Kind != Honest || !h.started[inst] {
+			continue
+		}
+		ix := T.IndexOf(w.Sc.Members[i].ID)
+		if ix < 0 {
+			continue
+		}
+		if h.p.Progress().Round == minRound {
+			behind += scaledIndep(T, ix)
+		} else {
+			ahead += scaledIndep(T, ix)
+		}
+	}
+	threshold := (2*total + 2) / 3
+	if ahead == 0 || 3*ahead > total || behind >= threshold || !m.byzEverSent {
+		return ""
+	}
+	return fmt.Sprintf(" [round split: honest members with %d%% of the power (no weak quorum) are in a later round than the others, who hold %d%% (no strong quorum) and cannot complete round %d without them]", ahead*100/max(total, 1), behind*100/max(total, 1), minRound)
 }
 
 func (m *Monitor) observer(inst uint64) *gpbft.Participant {
